@@ -130,6 +130,8 @@ def cbody_sx(c):
         return f"(interrupted {q(c[1])} {lst(c[2], pair)})"
     if k == "periodicallyUnavailable":
         return f"(periodicallyUnavailable {q(c[1])} {lst(c[2], pair)} {c[3]} {c[4]} {c[5]} {opt(c[6])})"
+    if k == "periodicallyInterrupted":
+        return f"(periodicallyInterrupted {q(c[1])} {lst(c[2], pair)} {c[3]} {c[4]} {c[5]} {opt(c[6])})"
     if k in ("sameWorkers", "distinctWorkers"):
         return f"({k} {c[1]} {c[2]})"
     if k in ("unloadBuffer", "loadBuffer"):
@@ -237,6 +239,11 @@ def make_constraint(real, c, kw):
     if k == "periodicallyUnavailable":
         extra = {"end": c[6]} if c[6] is not None else {}
         return ps.ResourcePeriodicallyUnavailable(resource=resource_named(real, c[1]),
+                                                  list_of_time_intervals=[tuple(p) for p in c[2]], period=c[3],
+                                                  start=c[4], offset=c[5], **extra, **kw)
+    if k == "periodicallyInterrupted":
+        extra = {"end": c[6]} if c[6] is not None else {}
+        return ps.ResourcePeriodicallyInterrupted(resource=resource_named(real, c[1]),
                                                   list_of_time_intervals=[tuple(p) for p in c[2]], period=c[3],
                                                   start=c[4], offset=c[5], **extra, **kw)
     if k == "sameWorkers":
